@@ -7,6 +7,7 @@ import (
 	"fmt"
 	"os"
 	"runtime"
+	"runtime/debug"
 	"strconv"
 	"sync/atomic"
 	"testing"
@@ -94,6 +95,10 @@ func TestWorker(t *testing.T) {
 		b, _ := json.Marshal(v)
 		fmt.Fprintf(bw, "%s %s\n", kind, b)
 	}
+	// C07: a small stack limit turns unbounded recursion into a (replayable)
+	// fatal stack overflow with inputs of a few MiB instead of hundreds.
+	// An iterative implementation uses O(1) stack whatever the limit.
+	debug.SetMaxStack(48 << 20)
 	startWatchdog(time.Duration(envInt("SIM_WATCHDOG_S", 120)) * time.Second)
 	ex := &Executor{T: t}
 	agg := NewAgg()
@@ -124,6 +129,13 @@ func TestWorker(t *testing.T) {
 	recheck := envInt("SIM_RECHECK", 100)
 	maxViol := envInt("SIM_MAXVIOL", 40)
 	nviol := 0
+	var tracelog *bufio.Writer
+	if tp := os.Getenv("SIM_TRACELOG"); tp != "" {
+		if f, err := os.Create(tp); err == nil {
+			defer f.Close()
+			tracelog = bufio.NewWriter(f)
+		}
+	}
 	for i := from; i < to; i += stride {
 		if budget > 0 && time.Since(start) > budget {
 			break
@@ -149,6 +161,12 @@ func TestWorker(t *testing.T) {
 			}
 		}
 		fmt.Fprintf(bw, "DONE %d\n", i)
+		if tracelog != nil {
+			fmt.Fprintf(tracelog, "%d %016x %d %d %d\n", i, res.TraceHash, res.Steps, res.Execs, len(res.Violations))
+		}
+	}
+	if tracelog != nil {
+		tracelog.Flush()
 	}
 	watchdogBeat.Store(0)
 	emit("AGG", agg.Summary())
